@@ -17,9 +17,9 @@ git diff HEAD -- src > /tmp/seedchk/rebased${SLOT:-}.diff
 git reset -q
 SUITE=$(cargo nextest run --workspace --no-fail-fast --test-threads 8 --offline 2>&1 | grep -E "Summary" | tail -1)
 cp "$SRC/demo.rs" tests/seeded_demo.rs
-DEMO_WITH=$(cargo test --offline --test seeded_demo 2>&1 | grep -E "^test result|error(\[|:)" | head -3 | tr '\n' ' ')
+DEMO_WITH=$(cargo test --offline --test seeded_demo 2>&1 | grep -E "^test result|^error(\[|:)" | head -3 | tr '\n' ' ')
 git reset -q --hard HEAD
-DEMO_WITHOUT=$(cargo test --offline --test seeded_demo 2>&1 | grep -E "^test result|error(\[|:)" | head -3 | tr '\n' ' ')
+DEMO_WITHOUT=$(cargo test --offline --test seeded_demo 2>&1 | grep -E "^test result|^error(\[|:)" | head -3 | tr '\n' ' ')
 rm -f tests/seeded_demo.rs
 echo "$NAME: suite[$SUITE] demo_with_patch[$DEMO_WITH] demo_without[$DEMO_WITHOUT]"
 OK=1
